@@ -98,20 +98,68 @@ def corpus(v, level):
     for dt, val in (('DT', '2020'), ('DT', 'bad'), ('NM', '1.5'), ('NM', 'x' * 20), ('ST', 'a|b'), ('ST', long),
                     ('SI', '12345'), ('TM', '12+0100'), ('FT', '\\H\\x'), ('TN', '5551234'), ('TN', 'zz'), ('CM', 'x'),
                     ('DTM', '202001011200'), ('GTS', 'x'), ('SNM', '12'), ('ID', 'A'), ('IS', 'y' * 30), ('TS', 'x'),
-                    ('WD', 'w'), ('TX', long)):
-        add('datatype_factory:%s:%s' % (dt, val[:6]),
+                    ('WD', 'w'), ('TX', long), ('GTS', long), ('IS', long), ('TN', long), ('ID', long), ('FT', long),
+                    ('CM', long), ('WD', long), ('SNM', long), ('TS', long), ('NM', '1' * 17), ('SI', '12345678')):
+        add('datatype_factory:%s:%s%s' % (dt, val[:6], len(val)),
             lambda dt=dt, val=val: datatype_factory(dt, val, v, level).to_er7(ec))
-        add('SubComponent:%s:%s' % (dt, val[:6]),
+        add('SubComponent:%s:%s%s' % (dt, val[:6], len(val)),
             lambda dt=dt, val=val: core.SubComponent(datatype=dt, value=val, version=v, validation_level=level).to_er7(ec))
-        add('Component:%s:%s' % (dt, val[:6]),
+        add('Component:%s:%s%s' % (dt, val[:6], len(val)),
             lambda dt=dt, val=val: (lambda c: (setattr(c, 'value', val), c.to_er7(ec), c.datatype)[1:])(
                 core.Component(datatype=dt, version=v, validation_level=level)))
         add('Component.add_subcomponent:%s' % dt,
             lambda dt=dt: (lambda c: (c.add_subcomponent('%s_1' % dt), c.to_er7(ec))[-1])(
                 core.Component(datatype=dt, version=v, validation_level=level)))
-        add('Field(datatype):%s:%s' % (dt, val[:6]),
+        add('Field(datatype):%s:%s%s' % (dt, val[:6], len(val)),
             lambda dt=dt, val=val: (lambda f: (setattr(f, 'value', val), f.to_er7(ec), f.datatype)[1:])(
                 core.Field('ZZZ_1', datatype=dt, version=v, validation_level=level)))
+    # a valued field / component of a base datatype is given another datatype (TOLERANT allows it when the element holds
+    # nothing structured), directly and by a value with more components than a base datatype holds: whether the current
+    # datatype is a base one is a question about the element's own version
+    cplx = [d for d in ('CE', 'CWE', 'CX', 'HD') if d in tables.complex_datatypes(v)]
+    for dt in sorted(tables.base_datatypes(v)):
+        wit = gen.witness(v, dt)
+
+        def host():
+            # (the elements sit in a message built with its delimiters given: text assigned to them is split with those)
+            m = core.Message('ADT_A01', version=v, validation_level=level, encoding_chars=dict(ec))
+            return m.add_segment('ZZZ')
+
+        def retype_f(dt=dt, wit=wit):
+            f = core.Field('ZZZ_1', datatype=dt, version=v, validation_level=level)
+            host().add(f)
+            f.value = wit
+            f.datatype = cplx[0]
+            return f.datatype, f.to_er7(ec), [c.name for c in f.children.list]
+        add('retype_valued_field:%s' % dt, retype_f)
+
+        def revalue_f(dt=dt, wit=wit):
+            f = core.Field('ZZZ_1', datatype=dt, version=v, validation_level=level)
+            host().add(f)
+            f.value = wit
+            f.value = 'a%sb%sc' % (ec['COMPONENT'], ec['COMPONENT'])
+            return f.datatype, f.to_er7(ec), [c.name for c in f.children.list]
+        add('revalue_valued_field:%s' % dt, revalue_f)
+
+        def retype_c(dt=dt, wit=wit):
+            f = core.Field('ZZZ_1', datatype=cplx[-1], version=v, validation_level=level)
+            host().add(f)
+            c = core.Component(datatype=dt, version=v, validation_level=level)
+            f.add(c)
+            c.value = wit
+            c.datatype = cplx[0]
+            return c.datatype, f.to_er7(ec), [x.name for x in c.children.list]
+        add('retype_valued_component:%s' % dt, retype_c)
+
+        def revalue_c(dt=dt, wit=wit):
+            f = core.Field('ZZZ_1', datatype=cplx[-1], version=v, validation_level=level)
+            host().add(f)
+            c = core.Component(datatype=dt, version=v, validation_level=level)
+            f.add(c)
+            c.value = wit
+            c.value = 'a%sb' % ec['SUBCOMPONENT']
+            return c.datatype, f.to_er7(ec), [x.name for x in c.children.list]
+        add('revalue_valued_component:%s' % dt, revalue_c)
     # datatypes that are base datatypes only in some versions (TN, CM, DTM, GTS, SNM, IS, TS ...): components and fields of
     # those types holding sub-component / component separators take the TOLERANT "more children than a base datatype
     # allows" paths, which must look the datatype up in the element's own version
